@@ -141,14 +141,15 @@ class TraceDevice(io.RawIOBase):
 
 
 # ------------------------------------------------------------------------------------------
-def mkfs_image(fat_type, size, offset=0, **kw):
-    """Run the real PyFat.mkfs into memory (same patching trick as tests/test_PyFatFS.py)."""
+def mkfs_image(fat_type, size, offset=0, auto_size=False, **kw):
+    """Run the real PyFat.mkfs into memory (same patching trick as tests/test_PyFatFS.py).
+    auto_size: mkfs is called WITHOUT a size and has to take it from the device, which then ends where the volume's room ends."""
     pf = PyFat(offset=offset)
-    dev = TraceDevice(b"\0" * size, offset=offset, record_reads=False)
+    dev = TraceDevice(b"\0" * size, offset=offset, record_reads=False, post_guard=0 if auto_size else 4096)
     pf._PyFat__fp = dev
     with mock.patch("pyfatfs.PyFat.PyFat._PyFat__set_fp", mock.Mock()):
         with mock.patch("pyfatfs.PyFat.open"):
-            pf.mkfs("/dev/null", fat_type=fat_type, size=size, **kw)
+            pf.mkfs("/dev/null", fat_type=fat_type, size=None if auto_size else size, **kw)
     return dev, pf
 
 
